@@ -399,7 +399,8 @@ static void do_rec(vf_case *c) {
 		if (cap < bits + 1) cap = len = bits + 1;
 		VF_TRY(th, bn_rec_tnaf(nb + 8, &len, A, (int8_t)u, m, w));
 		transitions++;
-		if (th) { vf_fail(NULL, "bn_rec_tnaf raised %d", th); goto tdone; }
+		/* scalars of more than m bits are refused (the partial reduction bounds the expansion only below 2^m) */
+		if (th) { if (bits <= m) vf_fail(NULL, "bn_rec_tnaf raised %d", th); goto tdone; }
 		if (len > cap) { vf_fail("L24-tnaf-length", "bn_rec_tnaf: wrote %zu digits into a buffer of %zu (its own check asks for bits(k)+1 = %zu)", len, cap, bits + 1); goto tdone; }
 		{
 			int8_t beta[64], gama[64]; uint8_t tw; bn_rec_tnaf_get(&tw, beta, gama, (int8_t)u, w);
